@@ -80,7 +80,12 @@ CarrierProbes == <<
   [props |-> {"C14"}, e |-> <<116,111,95,110,117,109,98,101,114,40,116,111,95,115,116,114,105,110,103,40,97,41,41,32,61,61,32,98>>, adm |-> {JTrue}, doc |-> CDoc("1073741824"), carriers |-> <<"float32", "int64">>],
   \* ... and the controls: every other carrier converts back
   [props |-> {"C14"}, e |-> <<116,111,95,110,117,109,98,101,114,40,116,111,95,115,116,114,105,110,103,40,97,41,41,32,61,61,32,98>>, adm |-> {JTrue}, doc |-> CDoc("1152921504606846976"), carriers |-> <<"int64", "json">>],
-  [props |-> {"C14"}, e |-> <<116,111,95,110,117,109,98,101,114,40,116,111,95,115,116,114,105,110,103,40,97,41,41,32,61,61,32,98>>, adm |-> {JTrue}, doc |-> CDoc("1152921504606846976"), carriers |-> <<"decimal", "uint64">>] >>
+  [props |-> {"C14"}, e |-> <<116,111,95,110,117,109,98,101,114,40,116,111,95,115,116,114,105,110,103,40,97,41,41,32,61,61,32,98>>, adm |-> {JTrue}, doc |-> CDoc("1152921504606846976"), carriers |-> <<"decimal", "uint64">>],
+  \* C14 (round 11): the negation of a zero held by a float64 is the float -0, printed "-0"; every other carrier gives "0"
+  \* (the decimal path of the negation returns a zero operand unchanged; the float path did not)
+  [props |-> {"C14"}, e |-> <<116,111,95,115,116,114,105,110,103,40,45,97,41,32,61,61,32,116,111,95,115,116,114,105,110,103,40,45,98,41>>, adm |-> {JTrue}, doc |-> CDoc("0"), carriers |-> <<"float64", "int64">>],
+  [props |-> {"C14"}, e |-> <<116,111,95,115,116,114,105,110,103,40,45,97,41,32,61,61,32,116,111,95,115,116,114,105,110,103,40,45,98,41>>, adm |-> {JTrue}, doc |-> CDoc("0"), carriers |-> <<"float32", "json">>],
+  [props |-> {"C14"}, e |-> <<116,111,95,115,116,114,105,110,103,40,45,97,41,32,61,61,32,116,111,95,115,116,114,105,110,103,40,45,98,41>>, adm |-> {JTrue}, doc |-> CDoc("0"), carriers |-> <<"decimal", "uint8">>] >>
 
 \* C09: time polynomial in the length of the expression, the size of the document and of the result.
 \* Families pre^d core post^d whose value stays tiny while the evaluation doubles with every level
